@@ -241,6 +241,8 @@ class Session:
         samples = list(self.samples)
         if not samples:
             samples = [{"obligation": n, "status": r.status, "backend": r.backend} for n, r, _ in self.obligations[:5]]
+        for b in self.bounded[:4]:
+            samples.append({"bounded_stand_in": b["name"], "cases_generated_as": b["bound"], "evaluations": b["evaluations"]})
         cov = {
             "obligations": n_ob,
             "discharged": discharged,
